@@ -891,10 +891,9 @@ impl C23 {
                 let right = compile_variant(w, q, args, "param-edge", &mut c);
                 if let (Some(left), Some(right)) = (left, right) {
                     // the IR tuples of the rewritten edge on both sides
-                    let tuple_of = |v: &Variant, nth_from: &Query| -> Option<BTreeMap<String, FieldValue>> {
-                        // complete the explicit parameters of the addressed edge with the schema's defaults
-                        let n = node_at(nth_from, &s.path);
-                        let Field::Edge { params, .. } = &n.fields[if std::ptr::eq(nth_from, &v.query) { j } else { j }] else { return None };
+                    // the complete parameter tuple (explicit values, else the schema's default, else null)
+                    let tuple_of = |q: &Query| -> Option<BTreeMap<String, FieldValue>> {
+                        let Field::Edge { params, .. } = &node_at(q, &s.path).fields[j] else { return None };
                         let e = schema.edge(&s.ty, &ename)?;
                         let mut m = BTreeMap::new();
                         for p in &e.params {
@@ -908,8 +907,8 @@ impl C23 {
                         }
                         Some(m)
                     };
-                    let tl = tuple_of(&left, &left.query);
-                    let tr = tuple_of(&right, &right.query);
+                    let tl = tuple_of(&left.query);
+                    let tr = tuple_of(&right.query);
                     if let (Some(tl), Some(tr)) = (tl, tr) {
                         let ptext = |m: &BTreeMap<String, FieldValue>| params_sexp(m.iter().map(|(k, v)| (k.as_str(), v))).to_string();
                         let (ltext, rtext) = (ptext(&tl), ptext(&tr));
